@@ -28,6 +28,7 @@ PID = "C08"
 PROOF_FILES = ["theories/Props/C08.v", "theories/Proofs/Mpr.v", "theories/Checker/PenMpr.v", "theories/Checker/Pen.v", "theories/Checker/Narrow.v",
                "theories/Checker/Shapes.v", "theories/Spec/Convex.v"]
 EPS_DIR = Fr(1, 10 ** 9)
+COAXIAL_KINDS = ["sphere", "sphere", "capsule", "cylinder", "ellipsoid", "box"]
 # arms of mpr.py observed by the worker (harness/impl/narrowp.py)
 ALL_ARMS = ["centers_coincide", "discover_ORIGIN_OUTSIDE_PORTAL", "discover_ORIGIN_ON_V1", "discover_ORIGIN_ON_V0V1_SEGMENT",
             "discover_PORTAL_WAS_BUILT", "discover_swapped_v1v2", "discover_kept_v1v2", "discover_iter_continue", "discover_iter_done",
@@ -64,7 +65,31 @@ def make_case(rng, tier, k):
         if k2 == "hull":    # centre of a vertex hull = what Collider.center() returns (vertex mean): keep as is
             pass
         meta = dict(stream="concentric", kinds=[k1, k2], L=nw.scene_scale([s1, s2]))
-    elif u < 0.3:
+    elif u < 0.4:
+        # coaxial: centres and support points on one line (arm "origin on segment v0-v1" / "origin on v1"):
+        # lattice sizes, displaced along a principal axis, overlap delta in {0 (exact touching), shallow .. deep}
+        k1, k2 = rng.choice(COAXIAL_KINDS), rng.choice(COAXIAL_KINDS)
+        sz = [0.25, 0.5, 1.0, 2.0]
+        ax = rng.randrange(3)
+        e = np.eye(3)[ax] * rng.choice([1.0, -1.0])
+        c0 = [rng.choice([-2.0, -1.0, 0.0, 0.5, 1.0]) for _ in range(3)]
+
+        def coax(kind):
+            r, h = rng.choice(sz), rng.choice(sz)
+            if kind == "sphere":
+                return dict(kind="sphere", center=list(c0), radius=r)
+            R = np.eye(3)
+            if kind in ("capsule", "cylinder"):       # local z axis along e or across it
+                R = nw.AXIS_PERMS[rng.randrange(len(nw.AXIS_PERMS))]
+                return dict(kind=kind, pose=nw.pose_of(R, c0), radius=r, **({"height": h} if kind == "capsule" else {"length": h}))
+            if kind == "ellipsoid":
+                return dict(kind=kind, pose=nw.pose_of(R, c0), radii=[rng.choice(sz), rng.choice(sz), rng.choice(sz)])
+            return dict(kind="box", pose=nw.pose_of(R, c0), size=[rng.choice(sz), rng.choice(sz), rng.choice(sz)])
+        s1, s2 = coax(k1), coax(k2)
+        delta = rng.choice([0.0, 0.0, 1e-3, 0.015625, 0.0625, 0.25]) * min(nw.feature_size(s1), nw.feature_size(s2))
+        s2 = nw.translate_spec(s2, (nw.support_value(s1, e) + nw.support_value(s2, -e) - delta) * e)
+        meta = dict(stream="coaxial", kinds=[k1, k2], dir=e.tolist(), delta=delta, L=nw.scene_scale([s1, s2]))
+    elif u < 0.48:
         # exact touching contact on the lattice: plane gap 0 along a lattice direction, centres aligned laterally
         k1, k2 = rng.choice(nw.KINDS), rng.choice(nw.KINDS)
         s1 = nw.gen_collider(rng, k1, "lattice", margin_prob=0.0)
@@ -249,7 +274,7 @@ def correspondence(R, cases, results):
 def run(tier, seed, replay=None):
     R = cm.Run(PID, "translation_validation", tier, seed)
     R.cov["rule"] = ("case = ordered pair of colliders (10 kinds, optional Margin); streams: depth / lattice / deep / nested overlapping pairs "
-                     "(as in C07; overlap pre-checked by the harness' own float GJK), concentric (centres coincide exactly), touch (lattice colliders in exact touching contact), gap (plane gap in "
+                     "(as in C07; overlap pre-checked by the harness' own float GJK), concentric (centres coincide exactly), coaxial (centres and support points on one line, overlap 0 .. deep), touch (lattice colliders in exact touching contact), gap (plane gap in "
                      "{0, +-1e-9 .. 100}: touching, barely overlapping, separated); distinct by canonical hash; non-trivial = mpr_penetration "
                      "returned and its answer was judged by a certificate")
     R.assumptions += [
